@@ -11,7 +11,8 @@ Local Open Scope Z_scope.
 Record bexpr := {
   etype : exptype;          (* bound->type *)
   etext : list N;           (* EXPRto_string(bound): a function of the schema text *)
-  evalue : Z                (* the literal's value when etype = Type_Integer *)
+  evalue : Z;               (* the literal's value when etype = Type_Integer *)
+  eneg : option Z           (* Some v: the node is the negation of the integer literal v (its own type is not Type_Integer) *)
 }.
 
 Definition world := bexpr -> Z.     (* the bytes under u.integer for a non-literal node *)
@@ -38,5 +39,11 @@ Inductive printed := PNumber (z : Z) | PText (s : list N).
 Definition print_bound (w : world) (e : bexpr) : printed :=
   match pick (etype e) bound_branches with
   | FNumber => PNumber (u_integer w e)
-  | FText => PText (etext e)
+  | FText =>
+    (* the branch for a negated literal stands right before the final else: it reads the operand's u.integer, and the
+       operand is an integer literal *)
+    match negated_literal_as_number, eneg e with
+    | true, Some v => PNumber (- v)
+    | _, _ => PText (etext e)
+    end
   end.
